@@ -381,6 +381,7 @@ pub fn run(tier: Tier, seed: u64, replay: Option<String>) -> i32 {
             }
         }
         ctx.add_eval(evals);
+        ctx.add_states(evals);
         ctx.add_transitions(evals);
         ctx.add_traces(evals);
         for o in outcomes {
@@ -416,6 +417,7 @@ pub fn run(tier: Tier, seed: u64, replay: Option<String>) -> i32 {
             evals += sweep(&ctx, &mut w.e128, true, bank, kind, op, &p, &v, &ts128, &mut outcomes);
         }
         ctx.add_eval(evals);
+        ctx.add_states(evals);
         ctx.add_transitions(evals);
         ctx.add_traces(evals);
         for o in outcomes {
